@@ -82,6 +82,17 @@ func flat(changes []schema.Change) []schema.Change {
 
 // PlanChanges returns a migration plan for the given schema changes.
 func (p *tplanApply) PlanChanges(ctx context.Context, name string, changes []schema.Change, opts ...migrate.PlanOption) (*migrate.Plan, error) {
+	// The changes are planned one by one below. Hence, check
+	// the scope of the whole changeset before splitting it.
+	var po migrate.PlanOptions
+	for _, opt := range opts {
+		opt(&po)
+	}
+	if po.SchemaQualifier != nil {
+		if err := sqlx.CheckChangesScope(po, changes); err != nil {
+			return nil, err
+		}
+	}
 	planned, err := sqlx.DetachCycles(changes)
 	if err != nil {
 		return nil, err
